@@ -1,6 +1,7 @@
 (* Executable model of wpull's robots.txt machinery (C20).  Definitions only.
 
-   Transcribed from (worktree with the F17/F18/F19 repairs applied):
+   Transcribed from (worktree with the repairs applied: whole robots.txt body parsed, meta content
+   attribute, difference_update for nofollow, per-origin fetch lock, robots check on redirect hops):
      wpull/thirdparty/robotexclusionrulesparser.py  parse / is_allowed / _Ruleset  (parts A-D)
      wpull/robotstxt.py                             RobotsTxtPool                  (part E)
      wpull/protocol/http/robots.py                  RobotsTxtChecker               (part E)
@@ -580,11 +581,16 @@ Inductive gstep (cfg : config) : gstate -> gstate -> Prop :=
     on_robots_response cfg (g_pool s) i u cur hop n r = (p', w', ev, keep) ->
     gstep cfg s {| g_pool := p'; g_locks := lock_set (g_locks s) (u_origin cur) keep;
                    g_workers := set_worker (g_workers s) i w'; g_trace := ev ++ g_trace s |}
-| StepFetchSend s i u cur hop :
+| StepFetchSend s i u cur hop (sub_ok : bool) :
+    (* the top of the _process_loop iteration: check_subsequent_web_request (filters once more) *)
     (i < c_workers cfg)%nat -> g_workers s i = WFetchSend u cur hop ->
-    gstep cfg s {| g_pool := g_pool s; g_locks := g_locks s;
-                   g_workers := set_worker (g_workers s) i (WFetchWait u cur hop);
-                   g_trace := EvReq i u cur hop :: g_trace s |}
+    gstep cfg s (if sub_ok
+                 then {| g_pool := g_pool s; g_locks := g_locks s;
+                         g_workers := set_worker (g_workers s) i (WFetchWait u cur hop);
+                         g_trace := EvReq i u cur hop :: g_trace s |}
+                 else {| g_pool := g_pool s; g_locks := g_locks s;
+                         g_workers := set_worker (g_workers s) i WIdle;
+                         g_trace := [EvSkipped i u] ++ g_trace s |})
 | StepFetchResp s i u cur hop reply :
     (i < c_workers cfg)%nat -> g_workers s i = WFetchWait u cur hop ->
     gstep cfg s {| g_pool := g_pool s; g_locks := g_locks s;
@@ -604,7 +610,7 @@ Inductive label :=
 | LLock (i : nat)
 | LRobotsSend (i : nat)
 | LRobotsResp (i : nat) (r : response)
-| LFetchSend (i : nat)
+| LFetchSend (i : nat) (sub_ok : bool)
 | LFetchResp (i : nat) (reply : fetch_reply).
 
 Definition step_fun (cfg : config) (s : gstate) (l : label) : option gstate :=
@@ -653,13 +659,17 @@ Definition step_fun (cfg : config) (s : gstate) (l : label) : option gstate :=
                   g_workers := set_worker (g_workers s) i w'; g_trace := ev ++ g_trace s |}
       | _ => None
       end
-  | LFetchSend i =>
+  | LFetchSend i sub_ok =>
       if negb (Nat.ltb i (c_workers cfg)) then None else
       match g_workers s i with
       | WFetchSend u cur hop =>
-          Some {| g_pool := g_pool s; g_locks := g_locks s;
-                  g_workers := set_worker (g_workers s) i (WFetchWait u cur hop);
-                  g_trace := EvReq i u cur hop :: g_trace s |}
+          Some (if sub_ok
+                then {| g_pool := g_pool s; g_locks := g_locks s;
+                        g_workers := set_worker (g_workers s) i (WFetchWait u cur hop);
+                        g_trace := EvReq i u cur hop :: g_trace s |}
+                else {| g_pool := g_pool s; g_locks := g_locks s;
+                        g_workers := set_worker (g_workers s) i WIdle;
+                        g_trace := [EvSkipped i u] ++ g_trace s |})
       | _ => None
       end
   | LFetchResp i reply =>
